@@ -12,7 +12,7 @@ LEVEL = "model_checking"
 RULE = ("for every stream (all sequences of 1..2 (3 thorough) frames over a frame alphabet + terminator) breadth-first "
         "search over the real framer: state = (bytes delivered, framer object state, messages emitted), transition = "
         "deliver the next k bytes (every k) and call read_*_buffer once; every segmentation of the stream is a path; "
-        "safety+progress invariant evaluated in every state; NetSource: every message sequence up to length 5 (6) x "
+        "safety+progress invariant evaluated in every state; the real TcpClient.run() loop driven by a fake socket over every single cut, 1-byte and 3-byte pieces; NetSource/RtlSdrSource: every message sequence up to length 5 (6) x "
         "every batching; distinct = distinct (framer, stream)")
 ASSUMPTIONS = [
     "progress obligation: a frame must have been emitted once the next frame's 0x1A *and* type byte (Beast), the ';' "
@@ -24,7 +24,7 @@ ASSUMPTIONS = [
 
 pms = loader.load("P")
 from pyModeS.extra.tcpclient import TcpClient  # noqa: E402
-from pyModeS.streamer.source import NetSource  # noqa: E402
+from pyModeS.streamer.source import NetSource, RtlSdrSource  # noqa: E402
 
 LONG = bytes.fromhex("8D406B902015A678D4D220AA4BDA")
 LONG2 = bytes.fromhex("A0001838201584F23468207CDFA5")
@@ -225,8 +225,12 @@ NS_ALPHA = {
 }
 
 
-def ns_run(seq, batching):
-    src = NetSource("localhost", 0, "beast")
+def ns_run(seq, batching, cls="net"):
+    if cls == "net":
+        src = NetSource("localhost", 0, "beast")
+    else:
+        src = object.__new__(RtlSdrSource)      # the constructor would open the SDR device
+        src.reset_local_buffer()
     src.stop_flag = _Flag()
     pipe = _Pipe()
     src.raw_pipe_in = pipe
@@ -280,17 +284,86 @@ def w_ns(arg):
         for rest in itertools.product(names, repeat=n - 1):
             seq = (first,) + rest
             for comp in compositions(n):
-                acc.n += 1
-                acc.cov["transitions"] += len(comp)
-                acc.cov["states"] += 1
-                s = ns_run(seq, comp)
-                if s:
-                    acc.bad(s, {"kind": "netsource", "seq": list(seq), "batching": list(comp)})
+                for cls in ("net", "rtl"):
+                    acc.n += 1
+                    acc.cov["transitions"] += len(comp)
+                    acc.cov["states"] += 1
+                    s = ns_run(seq, comp, cls)
+                    if s:
+                        acc.bad(s + ("" if cls == "net" else ":RtlSdrSource"), {"kind": "netsource", "seq": list(seq), "batching": list(comp), "cls": cls})
             acc.out.add(("netsource", seq))
     return acc.res()
 
 
+class _EndOfStream(Exception):
+    pass
+
+
+class _Sock:
+    def __init__(self, chunks):
+        self.chunks = list(chunks)
+
+    def recv(self, n):
+        if not self.chunks:
+            raise _EndOfStream()
+        return bytes(self.chunks.pop(0))
+
+    def close(self):
+        pass
+
+
+def run_loop(datatype, stream, cuts):
+    """drive the real TcpClient.run() loop with a fake socket delivering the given pieces."""
+    c = TcpClient("localhost", 0, datatype)
+    c.connect = lambda: setattr(c, "socket", _Sock(cuts_to_chunks(stream, cuts)))
+    got = []
+    c.handle_messages = lambda messages: got.extend(m[0] for m in messages)
+    try:
+        c.run()
+    except _EndOfStream:
+        pass
+    except Exception as e:  # noqa: BLE001
+        return ("exc", type(e).__name__)
+    return got
+
+
+def cuts_to_chunks(stream, cuts):
+    out, pos = [], 0
+    for k in cuts:
+        out.append(stream[pos:pos + k])
+        pos += k
+    if pos < len(stream):
+        out.append(stream[pos:])
+    return out
+
+
+def w_runloop(arg):
+    framer, names_list = arg
+    alpha, term, _, reffn = FRAMERS[framer]
+    acc = Acc()
+    acc.cov["states"] = 0
+    acc.cov["transitions"] = 0
+    for names in names_list:
+        stream = [b for nm in names for b in alpha[nm]] + term
+        want = [r["msg"] for r in reffn(stream)]
+        N = len(stream)
+        segs = [[N]] + [[k] for k in range(1, N)] + [[1] * N] + [[3] * (N // 3)] + [[k, 1] for k in range(1, N - 1, 2)]
+        for cuts in segs:
+            got = run_loop(framer, stream, cuts)
+            acc.n += 1
+            acc.cov["transitions"] += len(cuts) + 1
+            if isinstance(got, tuple):
+                acc.bad("%s:run_loop:exception:%s" % (framer, got[1]), {"kind": "runloop", "framer": framer, "stream": bytes(stream).hex(), "cuts": cuts})
+            elif got != want:
+                acc.bad("%s:run_loop:delivered_messages_differ_from_reference" % framer,
+                        {"kind": "runloop", "framer": framer, "stream": bytes(stream).hex(), "cuts": cuts, "got": got, "want": want})
+        acc.out.add(("runloop", framer, names))
+    return acc.res()
+
+
 def w_any(t):
+    if t[0] == "r":
+        return w_runloop(t[1])
     return {"s": w_streams, "n": w_ns}[t[0]](t[1])
 
 
@@ -307,6 +380,10 @@ def run(ctx):
                 seqs += list(itertools.product(sorted(alpha), repeat=n))
         tasks += [("s", (framer, c)) for c in chunks(seqs, 4)]
     tasks += [("n", (first, 6 if ctx.thorough else 5)) for first in sorted(NS_ALPHA)]
+    for framer in ("beast", "raw", "skysense"):
+        alpha = FRAMERS[framer][0]
+        seqs = [(a,) for a in sorted(alpha)] + [(a, b) for a in sorted(alpha) for b in sorted(alpha)][:: (1 if ctx.thorough else 3)]
+        tasks += [("r", (framer, c)) for c in chunks(seqs, 6)]
     ctx.cov["states"] = 0
     ctx.cov["transitions"] = 0
     ctx.pmap(w_any, tasks)
@@ -317,9 +394,16 @@ def run(ctx):
 
 
 def replay(case):
+    if case["kind"] == "runloop":
+        stream = list(bytes.fromhex(case["stream"]))
+        got = run_loop(case["framer"], stream, case["cuts"])
+        want = [r["msg"] for r in FRAMERS[case["framer"]][3](stream)]
+        if isinstance(got, tuple):
+            return [("%s:run_loop:exception:%s" % (case["framer"], got[1]), case)]
+        return [("%s:run_loop:delivered_messages_differ_from_reference" % case["framer"], case)] if got != want else []
     if case["kind"] == "netsource":
-        s = ns_run(tuple(case["seq"]), tuple(case["batching"]))
-        return [(s, case)] if s else []
+        s = ns_run(tuple(case["seq"]), tuple(case["batching"]), case.get("cls", "net"))
+        return [(s, case), (s + ":RtlSdrSource", case)] if s else []
     framer = case["framer"]
     stream = list(bytes.fromhex(case["stream"]))
     ref = FRAMERS[framer][3](stream)
